@@ -3,6 +3,6 @@ namespace Updog.Facts
 open Updog.Generated
 /-- every cache call is one atomic step (mutex held for the whole body); Execute/GetSchema hold the index read lock;
     evaluation never mutates a shared bitmap -/
-theorem C04_facts : lruGetLocked = true ∧ lruPutLocked = true ∧ executeShape = true ∧ getSchemaRLock = true ∧
+theorem C04_facts : serverPlainGrpcServer = true ∧ lruGetLocked = true ∧ lruPutLocked = true ∧ executeShape = true ∧ getSchemaRLock = true ∧
     noMutatingBitmapCalls = true ∧ preloadedIsPlainMap = true ∧ onDemandReadsStore = true ∧ serverResponseFresh = true ∧ serverLoopShape = true ∧ evalNotShape = true ∧ evalAndShape = true ∧ evalOrShape = true ∧ evalEqualShape = true := by decide
 end Updog.Facts
